@@ -669,7 +669,7 @@ fn scr_files(ctx: &Ctx) {
             for rx in [Rx::Fresh, Rx::Halted, Rx::MidPrefix, Rx::Other] {
                 let content: Vec<u8> = (0..6912).map(|a| if a < 6144 { ((a * 17 + k * 31) % 256) as u8 } else { ((a * 29 + k) % 128) as u8 }).collect();
                 let mut e = receiver(m128, rx, 0);
-                let r = std::panic::catch_unwind(std::panic::AssertUnwindSafe(|| e.load_screen(Screen::Scr(VAsset::new(scr(&content))))));
+                let r = std::panic::catch_unwind(std::panic::AssertUnwindSafe(|| e.load_screen(Screen::Scr(VAsset::new(scr(&content)).chunked([0usize, 1, 3, 128][(content[0] as usize) % 4])))));
                 ctx.add_eval(1);
                 let case = json!({"kind":"scr","m128":m128,"k":k,"receiver":format!("{:?}", rx)});
                 if !matches!(r, Ok(Ok(()))) {
